@@ -1,6 +1,6 @@
 (* C02 - notify delivers every payload intact.  The slot formula is GENERATED from its four copies in sc_notify.c. *)
 From Coq Require Import ZArith List Bool Permutation.
-From ScV Require Import Base.CInt Gen.NotifyC01 C02.SlotProofs C02.PayloadModel C01.MergeModel C01.MergeProofs C01.MergeCorr Gen.Consts MPI.Prog C01.NotifyProgs C01.NotifyProgProofs C01.NaryArith C01.NaryDelivery C01.RecordOps C01.BinaryRound C01.NaryRound C01.PexRound C01.NbxProofs.
+From ScV Require Import Base.CInt Gen.NotifyC01 C02.SlotProofs C02.PayloadModel C01.MergeModel C01.MergeProofs C01.MergeCorr Gen.Consts MPI.Prog C01.NotifyProgs C01.NotifyProgProofs C01.NaryArith C01.NaryDelivery C01.RecordOps C01.BinaryRound C01.NaryRound C01.NaryCore C01.PexRound C01.NbxProofs.
 Import ListNotations.
 Local Open Scope Z_scope.
 
@@ -128,23 +128,25 @@ Theorem C02_nary_round_semantics : forall G (R : Z -> list Z), 0 < G <= BIG ->
 Proof. exact nary_round_semantics_payload. Qed.
 Print Assumptions C02_nary_round_semantics.
 
-(* the entry point nary_core with payload, slot count from the GENERATED npay_nary.  PARTIAL as C01_nary_core_..._partial *)
-Theorem C02_nary_core_round_semantics_partial : forall G (R : Z -> list Z) (pay : Z -> Z -> payload) ntop nint nbot depth prod
-    (ls : list (Z * Z)) (orders : Z -> Z -> list Z) sz,
-  0 < G <= BIG -> G <> 1 -> 0 < sz < 2 ^ 31 ->
+(* FULL STRENGTH, the entry point nary_core with payload (slot count from the GENERATED npay_nary): every size, all
+   widths >= 2, every receiver and payload family (items of sz bytes), every arrival order at every level *)
+Theorem C02_nary_core_round_semantics : forall G (R : Z -> list Z) ntop nint nbot,
+  0 < G <= BIG -> G <> 1 ->
   (forall f, 0 <= f < G -> ssorted (fun x => x) (R f) /\ forall t, In t (R f) -> 0 <= t < G) ->
+  2 <= ntop -> 2 <= nint -> 2 <= nbot -> nbot <= BIG -> nbot * ntop <= BIG -> G * nint <= BIG ->
+  forall (pay : Z -> Z -> payload) sz, 0 < sz < 2 ^ 31 ->
   (forall f t, Forall isbyte (pay f t) /\ Z.of_nat (length (pay f t)) = sz) ->
-  nary_depth 64 G nbot ntop nint = Some (depth, prod) ->
-  (forall me, 0 <= me < G -> rev (nary_descent 64 me 0 depth ntop nint nbot 0 prod) = mk_lv me 1 ls) ->
-  G <= prodl (map snd ls) -> prodl (map snd ls) <= BIG ->
-  (forall me, 0 <= me < G -> levels_ok G depth ntop nint nbot me (orders me) 1 ls) ->
+  exists depth prod, nary_depth 64 G nbot ntop nint = Some (depth, prod) /\ G <= prod /\
+  forall orders : Z -> Z -> list Z,
+  (forall me, 0 <= me < G -> orders_ok G me (orders me) 1 (nary_ls depth ntop nint nbot)) ->
   forall me, 0 <= me < G ->
   let payf := fun f t => pack_ints (Z.to_nat (npay_nary 1 sz)) (pay f t) in
-  run (all_replies G R payf me (orders me) 1 ls h0)
+  run (all_replies G R payf me (orders me) 1 (nary_ls depth ntop nint nbot) h0)
       (nary_core G me ntop nint nbot (R me) (Some (map (pay me) (R me))) sz (fun s g => Ret (result s g)))
-  = (all_acts G R payf me 1 ls h0, Some (result (transpose G R me) (map (fun s => pay s me) (transpose G R me)))).
-Proof. exact nary_core_round_semantics_payload. Qed.
-Print Assumptions C02_nary_core_round_semantics_partial.
+  = (all_acts G R payf me 1 (nary_ls depth ntop nint nbot) h0,
+     Some (result (transpose G R me) (map (fun s => pay s me) (transpose G R me)))).
+Proof. exact nary_core_round_semantics_payload_full. Qed.
+Print Assumptions C02_nary_core_round_semantics.
 
 (* ---- pex with payload: slots of the generated npay_pex ints behind the flag, one MPI_Alltoall; from the contract of the
    collective every rank ends with the ascending senders and pay s me at the position of sender s (hp = true), for every
